@@ -88,20 +88,19 @@ Qed.
 Variable g : gens K M.
 Notation Gb := (g_Gb g).
 
-(** THE END-TO-END STATEMENT for one commitment: the verifier's recovery applied to the prover's own
-    responses, with the prover's own nonces, returns the blinding vector. *)
-Theorem prover_mask_recovered bits cap (v : N) (p : option N) (r : list K) (nn : nonces K) (ch : pchals K) :
+(** the responses d1 of the code-shaped prover ARE the "honest d1" of Proofs/MaskP.v, for the prover's own nonces *)
+Theorem prover_d1_honest bits cap (v : N) (p : option N) (r : list K) (nn : nonces K) (ch : pchals K) :
   let T := length Gb in
   1 <= bits -> 1 <= cap ->
   length (g_G g) = (bits * cap)%nat -> length (g_Hv g) = (bits * cap)%nat ->
   (1 * bits)%nat = 2 ^ length (pc_es ch) ->
-  pc_y ch <> 0 -> pc_z ch <> 0 -> pc_e ch <> 0 -> Forall (fun e => e <> 0) (pc_es ch) ->
+  pc_y ch <> 0 -> Forall (fun e => e <> 0) (pc_es ch) ->
   length r = T -> wf_nonces K T (length (pc_es ch)) nn ->
   let pf := prove_core K M bits cap g [v] [p] [r] nn ch in
-  recover_mask K (nonce_fn nn) bits 1 T (mkVproof K (pp_d1 pf) (pp_r1 pf) (pp_s1 pf))
-               (mkChals K (pc_y ch) (pc_z ch) (pc_es ch) (pc_e ch)) = r.
+  length (pp_d1 pf) = T /\
+  forall k, k < T -> nth k (pp_d1 pf) 0 = honest_d1 K (nonce_fn nn) (pc_y ch) (pc_z ch) (pc_e ch) (pc_es ch) (1 * bits) (nth k r 0) k.
 Proof.
-  intros T Hb Hcap LG LH HN Hy Hz He Hes Lr Wn pf.
+  intros T Hb Hcap LG LH HN Hy Hes Lr Wn pf.
   assert (Fb : Forall (fun r0 => length r0 = T) [r]) by (constructor; [exact Lr|constructor]).
   subst pf. rewrite (prove_core_textbook K Kok M Mok g bits cap [v] [p] [r] nn ch 0 Hb eq_refl Hcap LG LH HN Hy Hes eq_refl eq_refl Fb Wn).
   pose proof (Lal1 K Kok M Mok g bits [v] [r] nn ch Fb Wn) as Lal1.
@@ -123,10 +122,7 @@ Proof.
   { pose proof (final_alpha_length y rs a1 b1 al1 ltac:(rewrite Lal1; exact Wrs)) as E. rewrite Efs in E. cbn [snd] in E. rewrite E. exact Lal1. }
   assert (Ld1 : length (final_d1 K e alf (n_d nn) (n_eta nn)) = T).
   { unfold final_d1. apply map2_len; [exact Leta|]. apply map2_len; rewrite map_length; assumption. }
-  apply nth_ext with (d := 0) (d' := 0).
-  { rewrite (recover_mask_length K) by (cbn [v_d1]; lia). congruence. }
-  intros k Hk. rewrite (recover_mask_length K) in Hk by (cbn [v_d1]; lia).
-  apply (mask_recovery_exact K Kok (nonce_fn nn) bits T _ _ r); cbn [c_y c_z c_e c_es v_d1]; try assumption; try lia.
+  split; [exact Ld1|].
   intros k0 Hk0. unfold honest_d1, final_d1.
   assert (Lin : length (map2 (fadd K) (map (fmul K e) (n_d nn)) (map (fmul K (e * e)) alf)) = T)
     by (apply map2_len; rewrite map_length; assumption).
@@ -135,10 +131,59 @@ Proof.
   rewrite !nth_map_mul.
   rewrite FA by lia.
   rewrite (round_sum_rsum (nonce_fn nn) k0 es (n_dL nn) (n_dR nn) 0 LdL LdR) by (intros; reflexivity). fold rs.
-  (* alpha_hat for a single commitment *)
   assert (Eal : nth k0 al1 0 = nth k0 (n_alpha nn) 0 + fpow y (S (1 * bits)) * fpow (z * z) 1 * nth k0 r 0).
   { unfold al1, v_weights. cbn [seq map alpha_hat].
     rewrite (nth_map2 (fun a0 x => a0 + fpow y (S (1 * bits)) * fpow (z * z) 1 * x) 0 0 0) by lia. reflexivity. }
   rewrite Eal. cbn [nonce_fn Field.fpow]. ring.
+Qed.
+
+(** THE END-TO-END STATEMENT for one commitment: the verifier's recovery applied to the prover's own
+    responses, with the prover's own nonces, returns the blinding vector. *)
+Theorem prover_mask_recovered bits cap (v : N) (p : option N) (r : list K) (nn : nonces K) (ch : pchals K) :
+  let T := length Gb in
+  1 <= bits -> 1 <= cap ->
+  length (g_G g) = (bits * cap)%nat -> length (g_Hv g) = (bits * cap)%nat ->
+  (1 * bits)%nat = 2 ^ length (pc_es ch) ->
+  pc_y ch <> 0 -> pc_z ch <> 0 -> pc_e ch <> 0 -> Forall (fun e => e <> 0) (pc_es ch) ->
+  length r = T -> wf_nonces K T (length (pc_es ch)) nn ->
+  let pf := prove_core K M bits cap g [v] [p] [r] nn ch in
+  recover_mask K (nonce_fn nn) bits 1 T (mkVproof K (pp_d1 pf) (pp_r1 pf) (pp_s1 pf))
+               (mkChals K (pc_y ch) (pc_z ch) (pc_es ch) (pc_e ch)) = r.
+Proof.
+  intros T Hb Hcap LG LH HN Hy Hz He Hes Lr Wn pf.
+  destruct (prover_d1_honest bits cap v p r nn ch Hb Hcap LG LH HN Hy Hes Lr Wn) as [Ld1 Hd]. fold pf in Ld1, Hd.
+  apply nth_ext with (d := 0) (d' := 0).
+  { rewrite (recover_mask_length K) by (cbn [v_d1]; fold T; lia). fold T. congruence. }
+  intros k Hk. rewrite (recover_mask_length K) in Hk by (cbn [v_d1]; fold T; lia).
+  apply (mask_recovery_exact K Kok (nonce_fn nn) bits T _ _ r); cbn [c_y c_z c_e c_es v_d1]; try assumption; fold T; try lia.
+Qed.
+
+(** C10, end to end: a verifier whose oracle [other] is NOT the prover's (another seed) recovers, at every
+    position, the blinding factor shifted by an explicit combination of the nonce differences — hence
+    the true mask only if that combination vanishes *)
+Theorem prover_mask_wrong_oracle bits cap (v : N) (p : option N) (r : list K) (nn : nonces K) (ch : pchals K)
+        (other : nlabel -> option nat -> nat -> K) :
+  let T := length Gb in
+  1 <= bits -> 1 <= cap ->
+  length (g_G g) = (bits * cap)%nat -> length (g_Hv g) = (bits * cap)%nat ->
+  (1 * bits)%nat = 2 ^ length (pc_es ch) ->
+  pc_y ch <> 0 -> pc_z ch <> 0 -> pc_e ch <> 0 -> Forall (fun e => e <> 0) (pc_es ch) ->
+  length r = T -> wf_nonces K T (length (pc_es ch)) nn ->
+  let pf := prove_core K M bits cap g [v] [p] [r] nn ch in
+  let y := pc_y ch in let z := pc_z ch in let e := pc_e ch in let es := pc_es ch in
+  let esq := map (fun c => c * c) es in
+  let esq_inv := map (fun c => c * c) (map (finv K) es) in
+  forall k, k < T ->
+  nth k (recover_mask K other bits 1 T (mkVproof K (pp_d1 pf) (pp_r1 pf) (pp_s1 pf)) (mkChals K y z es e)) 0
+  = nth k r 0 +
+    ((nonce_fn nn NEta None k - other NEta None k) + (nonce_fn nn Nd None k - other Nd None k) * e
+     + ((nonce_fn nn NAlpha None k - other NAlpha None k) + (round_sum K (nonce_fn nn) k 0 esq esq_inv - round_sum K other k 0 esq esq_inv)) * (e * e))
+    * / (e * e * (z * z * (fpow y (1 * bits) * y))).
+Proof.
+  intros T Hb Hcap LG LH HN Hy Hz He Hes Lr Wn pf y z e es esq esq_inv k Hk.
+  destruct (prover_d1_honest bits cap v p r nn ch Hb Hcap LG LH HN Hy Hes Lr Wn) as [Ld1 Hd]. fold pf in Ld1, Hd.
+  rewrite (recover_mask_component K other bits 1 T _ _ k Hk) by (cbn [v_d1]; fold T; lia).
+  cbn [c_y c_z c_e c_es v_d1]. rewrite (Hd k Hk).
+  apply (recover_one_wrong_seed K Kok other (nonce_fn nn)); assumption.
 Qed.
 End MF.
